@@ -33,6 +33,11 @@ Definition tab3 {A : Type} (ny nx nd : Z) (enc : A -> value) (f : Z -> Z -> Z ->
   VL (map (fun r => VL (map (fun c => VL (map (fun k => enc (f r c k)) (zrange 0 nd))) (zrange 0 nx)))
           (zrange 0 ny)).
 
+Definition enc_triple (o : option (Z * Z * Z)) : value :=
+  match o with Some (a, b, c) => VL [VZ a; VZ b; VZ c] | None => VL [] end.
+Definition enc_qtriple (o : option (Q * Q * Q)) : value :=
+  match o with Some (a, b, c) => VL [of_q a; of_q b; of_q c] | None => VL [] end.
+
 (* fid 1: the model.  result ((dmin dmax nd type_measure_min cmax) volume) *)
 Definition run_model (v : value) : value :=
   let inp := dec_input v in
@@ -44,6 +49,8 @@ Definition run_model (v : value) : value :=
   match as_z (vnth 0 v) with
   | 0 => VL [hdr Sad; tab3 ny nx nd of_oq (sad_volume inp dmin dmax)]
   | 1 => VL [hdr Ssd; tab3 ny nx nd of_oq (ssd_volume inp dmin dmax)]
+  | 2 => VL [hdr Census; tab3 ny nx nd of_oq (census_volume inp dmin dmax)]
+  | 3 => VL [hdr Zncc; tab3 ny nx nd enc_triple (zncc_volume inp dmin dmax)]
   | _ => VL [VZ (-1)]
   end.
 
@@ -62,13 +69,24 @@ Definition run_spec (v : value) : value :=
   | 0 => tab3 ny nx nd of_oq (cell (sad_spec w s (i_L inp) (i_R inp)))
   | 1 => tab3 ny nx nd of_oq (cell (ssd_spec w s (i_L inp) (i_R inp)))
   | 2 => tab3 ny nx nd of_oq (cell (census_spec w s (i_L inp) (i_R inp)))
+  | 3 => tab3 ny nx nd enc_qtriple
+           (fun r c k => let D := dmin * s + k in
+                         if comp r c D then Some (zncc_cov w s (i_L inp) (i_R inp) r c D,
+                                                  zncc_varl w s (i_L inp) (i_R inp) r c D,
+                                                  zncc_varr w s (i_L inp) (i_R inp) r c D) else None)
   | _ => VL [VZ (-1)]
   end.
+
+(* fid 3: does the step raise on this input? (measure ny nx w s) -> bool *)
+Definition run_raises (v : value) : value :=
+  let m := match as_z (vnth 0 v) with 0 => Sad | 1 => Ssd | 2 => Census | _ => Zncc end in
+  of_b (mc_raises m (as_z (vnth 1 v)) (as_z (vnth 2 v)) (as_z (vnth 3 v)) (as_z (vnth 4 v))).
 
 Definition dispatch (fid : Z) (v : value) : value :=
   match fid with
   | 1 => run_model v
   | 2 => run_spec v
+  | 3 => run_raises v
   | _ => VL [VZ (-1)]
   end.
 
